@@ -2,6 +2,7 @@
 // For every unqualified type T of a pool and EVERY sequence of successive qualification requests with non-empty
 // qualifier sets up to the bound (the complete space for that length), on a fresh Lexicon each: the chain result is
 // the node of get_qualified(union, T), its main variant is T (never a Qualified), and an empty set is refused.
+#include <algorithm>
 #include <string>
 #include <vector>
 
@@ -151,8 +152,50 @@ namespace {
          fail("C11:direct-unstable", h, "the direct request returned different nodes before and after the chain");
       if (cur != &last)
          fail("C11:chain-differs-from-direct", h, "qualifying step by step and qualifying once with the union give different nodes");
+      // every qualifier set asked directly over the same T afterwards (incomparable sets share one lookup table with the
+      // chain's results): each has its own node, the chain's unions are found again, and a second round finds all of them
+      {
+         std::vector<int> order;
+         for (int m : h.masks) if (std::find(order.begin(), order.end(), m) == order.end()) order.push_back(m);
+         for (int m = 7; m >= 1; --m) if (std::find(order.begin(), order.end(), m) == order.end()) order.push_back(m);
+         const ipr::Qualified* node[8] = { };
+         for (int round = 0; round < 2; ++round)
+            for (int m : order) {
+               const ipr::Qualified& r = w.lex.get_qualified(w.q[m], base);
+               rep.count("transitions");
+               if (node[m] == nullptr) { node[m] = &r; check_node(w, h, r, m, "direct"); }
+               else if (node[m] != &r) fail("C11:direct-unstable", h, "asking again for " + mask_text(m) + " over the same type returned a different node");
+               if (m == uni_all and &r != &last) fail("C11:direct-unstable", h, "the node of the union is not found again after other qualifier sets were requested over the same type");
+            }
+         for (int a = 1; a < 8; ++a) for (int b = a + 1; b < 8; ++b) if (node[a] == node[b]) fail("C11:different-sets-same-node", h, "two different qualifier sets over the same type share a node");
+      }
       rep.count("traces");
       rep.member("outcomes", std::to_string(h.t) + ":" + std::to_string(uni_all) + ":" + std::to_string(h.masks.size()));
+   }
+
+   // All 7! orders of asking for the seven qualifier sets directly over one type, each on a fresh Lexicon, then all again.
+   void direct_orders()
+   {
+      std::vector<int> perm{ 1, 2, 3, 4, 5, 6, 7 };
+      long long idx = 0;
+      do {
+         for (int t = 0; t < NT; t += 2) {
+            if (not opt.mine(idx++)) continue;
+            World w;
+            Hist h{ t, perm, 0, 0 };
+            const ipr::Qualified* node[8] = { };
+            for (int round = 0; round < 2; ++round)
+               for (int m : perm) {
+                  const ipr::Qualified& r = w.lex.get_qualified(w.q[m], *w.T[t]);
+                  rep.count("transitions");
+                  if (round == 0) { node[m] = &r; rep.count("states"); }
+                  else if (node[m] != &r) fail("C11:direct-unstable", h, "asking again for " + mask_text(m) + " over the same type returned a different node (sets requested directly, not nested)");
+                  if (r.qualifiers() != w.q[m] or &r.main_variant() != w.T[t]) fail("C11:qualifiers-not-union", h, "a directly requested qualified type does not report its qualifiers / main variant");
+               }
+            for (int a = 1; a < 8; ++a) for (int b = a + 1; b < 8; ++b) if (node[a] == node[b]) fail("C11:different-sets-same-node", h, "two different qualifier sets over the same type share a node");
+            rep.count("traces");
+         }
+      } while (std::next_permutation(perm.begin(), perm.end()));
    }
 
    void enumerate(int depth)
@@ -192,6 +235,7 @@ int main(int argc, char** argv)
    }
    const int depth = opt.thorough() ? 5 : 3;
    enumerate(depth);
+   direct_orders();
    if (opt.shard == 0) {
       rep.info("bounds", vf::JObj{}.num("max_chain_length", depth).num("qualifier_sets", 7).num("base_types", NT)
                             .str("deviations", "direct request before/after the chain; unrelated constructions interleaved or not").done());
